@@ -723,7 +723,17 @@ func Request(t *rapid.T, tb model.TableSpec, cfg Cfg) model.ReqSpec {
 	nm := rapid.SampledFrom([]int{0, 0, 0, 1, 1, 2}).Draw(t, "nmut")
 	trailing := false
 	for i := 0; i < nm; i++ {
-		switch rapid.IntRange(0, 12).Draw(t, "mut") {
+		switch rapid.IntRange(0, 13).Draw(t, "mut") {
+		case 13: // one character of one segment replaced ("x.y" -> "xzy", "v1" -> "v.", "(z)" -> "(zz"):
+			// a literal has to be met character by character, whatever the character means elsewhere
+			if len(segs) > 0 {
+				j := rapid.IntRange(0, len(segs)-1).Draw(t, "charpos")
+				if r := []rune(segs[j]); len(r) > 0 {
+					k := rapid.IntRange(0, len(r)-1).Draw(t, "charidx")
+					r[k] = []rune(pick(t, "charval", []string{"z", "x", ".", "-", "1", "Z", "+", "é", "_"}))[0]
+					segs[j] = string(r)
+				}
+			}
 		case 12: // an empty segment in the interior ("/a//b"): a segment like any other
 			if len(segs) >= 2 {
 				j := rapid.IntRange(1, len(segs)-1).Draw(t, "emptypos")
